@@ -269,11 +269,18 @@ func classifyFinal(f string) string {
 	return "err"
 }
 
+// serveStreamKnownLength makes serveStream announce the body's length (Content-Length) instead
+// of an unknown length.
+var serveStreamKnownLength bool
+
 // serveStream runs one request through the mux with a scripted body reader.
 func (s *streamFx) serveStream(method, path string, hdr map[string]string, body []byte, sched []int, eofd bool, h2 bool) (*httptest.ResponseRecorder, interface{}) {
 	rd := &schedReader{data: append([]byte(nil), body...), sched: sched, eofWithData: eofd}
 	r := httptest.NewRequest(method, path, bodyReadCloser{rd})
 	r.ContentLength = -1
+	if serveStreamKnownLength {
+		r.ContentLength = int64(len(body))
+	}
 	for k, v := range hdr {
 		r.Header.Set(k, v)
 	}
@@ -650,6 +657,7 @@ func c06Grpc(c *Ctx, prop string, sfx *streamFx) {
 		var wire []byte
 		var ends []int
 		var gzTable []string
+		bad := -1 // index of a frame that does not decompress
 		for j, k := 0, c.Rng.Intn(5); j < k; j++ {
 			d := make([]byte, []int{0, 0, 1, 3, 4, 5, 63, 64, 65, 127, 128, 300}[c.Rng.Intn(12)])
 			c.Rng.Read(d)
@@ -660,7 +668,14 @@ func c06Grpc(c *Ctx, prop string, sfx *streamFx) {
 			enc, _ := proto.Marshal(reqWithData(fx, d))
 			if strings.HasSuffix(proto_, "gzip") && c.Rng.Intn(3) > 0 {
 				z := gzipBytes(enc)
-				gzTable = append(gzTable, hexs(z)+":"+hexs(enc))
+				if bad < 0 && c.Rng.Intn(8) == 0 && len(z) > 10 {
+					// a frame whose gzip checksum is wrong: inflates completely, then fails
+					z = append([]byte(nil), z...)
+					z[len(z)-6] ^= 0x5a
+					bad = j
+				} else {
+					gzTable = append(gzTable, hexs(z)+":"+hexs(enc))
+				}
 				wire = append(wire, grpcFrame(1, z)...)
 			} else {
 				wire = append(wire, grpcFrame(0, enc)...)
@@ -698,7 +713,7 @@ func c06Grpc(c *Ctx, prop string, sfx *streamFx) {
 		eofd := c.Rng.Intn(2) == 0
 		sfx.reset(nil)
 		rec, pn := sfx.serveStream("POST", "/verif.v1.Svc/Up", hdr, sendBody, sched, eofd, h2)
-		in := fmt.Sprintf("%s msgs=%d wire=%x cut=%d sched=%s eofWithData=%v", proto_, len(msgs), trunc(wire, 80), cut, intsCSV(trunc2(sched, 20)), eofd)
+		in := fmt.Sprintf("%s msgs=%d wire=%x cut=%d bad-gzip-frame=%d sched=%s eofWithData=%v", proto_, len(msgs), trunc(wire, 80), cut, bad, intsCSV(trunc2(sched, 20)), eofd)
 		kind := proto_ + "-up"
 		c.count(kind, in, len(msgs) > 0)
 		if pn != nil {
@@ -756,6 +771,9 @@ func c06Grpc(c *Ctx, prop string, sfx *streamFx) {
 			}
 			atBoundary = cut == 0 || (complete > 0 && ends[complete-1] == cut)
 		}
+		if bad >= 0 && bad < complete {
+			complete, atBoundary = bad, false // the stream fails at the frame that does not decompress
+		}
 		ok := len(sfx.got) == complete
 		for k := 0; ok && k < complete; k++ {
 			ok = bytes.Equal(sfx.got[k], msgs[k])
@@ -771,7 +789,7 @@ func c06Grpc(c *Ctx, prop string, sfx *streamFx) {
 			c.SpecFail(kind, in, fmt.Sprintf("%d messages then %s (%s)", len(sfx.got), classifyFinal(sfx.final), sfx.final), fmt.Sprintf("%d messages then %s", complete, wantFinal), prop+"/"+kind+"/sequence", "the handler does not receive exactly the client's frames followed by a clean end")
 		}
 		// final status after the messages (valid streams): Reply frame then status
-		if cut < 0 {
+		if cut < 0 && bad < 0 {
 			raw := rec.Body.Bytes()
 			if proto_ == "web-text" {
 				raw, _ = base64.StdEncoding.DecodeString(string(raw))
@@ -923,8 +941,12 @@ func c06Grpc(c *Ctx, prop string, sfx *streamFx) {
 			msgs = append(msgs, d)
 		}
 		sfx.reset(nil)
-		echo, closeCode, err := wsEcho(hts.URL+"/c06/ws", fx, msgs)
-		in := fmt.Sprintf("ws msgs=%d", len(msgs))
+		modes := make([]int, len(msgs)) // per message: text frame, binary frame, text split into two frames
+		for k := range modes {
+			modes[k] = c.Rng.Intn(3)
+		}
+		echo, closeCode, err := wsEcho(hts.URL+"/c06/ws", fx, msgs, modes...)
+		in := fmt.Sprintf("ws msgs=%d frame-modes=%v", len(msgs), modes)
 		c.Eval("ws", in, len(msgs) > 0)
 		ok := err == nil && len(echo) == len(msgs) && len(sfx.got) == len(msgs)
 		for k := 0; ok && k < len(msgs); k++ {
@@ -936,7 +958,23 @@ func c06Grpc(c *Ctx, prop string, sfx *streamFx) {
 	}
 }
 
-func wsEcho(url string, fx *Fixture, msgs [][]byte) (echo [][]byte, closeCode int, err error) {
+// wsWrite sends one client message: mode 0 a text frame, 1 a binary frame, 2 a text message
+// fragmented into two frames.
+func wsWrite(conn io.Writer, mode int, b []byte) error {
+	switch {
+	case mode == 1:
+		return wsutil.WriteClientMessage(conn, ws.OpBinary, b)
+	case mode == 2 && len(b) >= 2:
+		h := len(b) / 2
+		if err := ws.WriteFrame(conn, ws.MaskFrameInPlace(ws.NewFrame(ws.OpText, false, append([]byte(nil), b[:h]...)))); err != nil {
+			return err
+		}
+		return ws.WriteFrame(conn, ws.MaskFrameInPlace(ws.NewFrame(ws.OpContinuation, true, append([]byte(nil), b[h:]...))))
+	}
+	return wsutil.WriteClientMessage(conn, ws.OpText, b)
+}
+
+func wsEcho(url string, fx *Fixture, msgs [][]byte, modes ...int) (echo [][]byte, closeCode int, err error) {
 	url = "ws" + strings.TrimPrefix(url, "http")
 	ctx, cancel := context.WithTimeout(context.Background(), 5*time.Second)
 	defer cancel()
@@ -946,9 +984,13 @@ func wsEcho(url string, fx *Fixture, msgs [][]byte) (echo [][]byte, closeCode in
 	}
 	defer conn.Close()
 	conn.SetDeadline(time.Now().Add(5 * time.Second))
-	for _, d := range msgs {
+	for i, d := range msgs {
 		b, _ := protojson.Marshal(reqWithData(fx, d))
-		if err := wsutil.WriteClientMessage(conn, ws.OpText, b); err != nil {
+		mode := 0
+		if i < len(modes) {
+			mode = modes[i]
+		}
+		if err := wsWrite(conn, mode, b); err != nil {
 			return echo, 0, err
 		}
 		rb, _, err := wsutil.ReadServerData(conn)
